@@ -145,6 +145,42 @@ func probeDec(a decArg) (string, string) {
 	return "", ""
 }
 
+// history of depth 2: two decodes from one reused buffer; the second must not be influenced by the first
+type reuseArg struct {
+	A mc.Bin `json:"first"`
+	B mc.Bin `json:"second"`
+}
+
+func probeReuse(a reuseArg) (string, string) {
+	buf := make([]byte, 0, 32)
+	buf = append(buf, a.A...)
+	var d1 date.Date
+	_ = d1.UnmarshalBinary(buf)
+	buf = append(buf[:0], a.B...) // the same backing array, overwritten in place
+	var d2 date.Date
+	err := d2.UnmarshalBinary(buf)
+	cls, y, m, d := expectDec([]byte(a.B))
+	switch cls {
+	case expOK:
+		gy, gm, gd := d2.Date()
+		if err != nil || int64(gy) != y || int(gm) != m || gd != d {
+			return "after_previous_call:decode", fmt.Sprintf("after decoding %x from the same buffer, %x decodes to %d-%d-%d, %v; want %d-%d-%d", []byte(a.A), []byte(a.B), gy, gm, gd, err, y, m, d)
+		}
+	case expDontCareYear:
+	default:
+		if err == nil {
+			return "after_previous_call:invalid_accepted", fmt.Sprintf("after decoding %x from the same buffer, %x (%s) is accepted as %v", []byte(a.A), []byte(a.B), expNames[cls], d2)
+		}
+	}
+	// the first value must not change when the buffer is reused
+	var d1b date.Date
+	_ = d1b.UnmarshalBinary([]byte(a.A))
+	if d1 != d1b {
+		return "after_previous_call:earlier_value_changed", fmt.Sprintf("the value decoded from %x changed to %v after the buffer was reused", []byte(a.A), d1)
+	}
+	return "", ""
+}
+
 func main() {
 	mc.Main("C11", "encode side: every real date of the stated year sets; decode side: complete grids of byte strings (all month/day byte pairs, all version bytes, all lengths 0..16, year-byte cross product); "+
 		"non-trivial = a 7-byte version-1 string (whether or not it names a real date)", func(r *mc.Run) {
@@ -154,6 +190,22 @@ func main() {
 		r.Assume("a decoded 7-byte version-1 string must name a real Gregorian date; for |year| > 999,999,999 success (with the exact triple) or an error are both accepted")
 		r.Assume("after a failed decode the receiver must not hold an impossible date (whether it is otherwise untouched is C17's business)")
 
+		pr := mc.NewProbe(r, "buffer_reuse", nil, probeReuse)
+		r.Phase("serial: all histories of two decodes from one reused buffer over 14 byte strings", "complete for depth 2 over the listed inputs", func() {
+			var ins [][]byte
+			for _, t := range [][3]int64{{2024, 2, 29}, {2023, 2, 28}, {1, 1, 1}, {-44, 3, 15}, {9999, 12, 31}} {
+				ins = append(ins, refEncode(t[0], int(t[1]), int(t[2])))
+			}
+			ins = append(ins, refEncode(2023, 2, 29), refEncode(2024, 13, 1), refEncode(2024, 0, 0), []byte{2, 0, 0, 7, 232, 2, 29}, []byte{1, 0, 0, 7, 232, 2}, []byte{}, []byte{1}, append(refEncode(2024, 2, 29), 0), refEncode(2024, 2, 30))
+			r.Serial(func(w *mc.W) {
+				for _, a := range ins {
+					for _, b := range ins {
+						w.Point()
+						pr.Do(w, reuseArg{mc.Bin(a), mc.Bin(b)})
+					}
+				}
+			})
+		})
 		perYear := func(w *mc.W, y int64) {
 			for m := 1; m <= 12; m++ {
 				for d := 1; d <= oracle.DaysIn(y, m); d++ {
